@@ -16,17 +16,22 @@
 /* ------------------------------------------------------------------ staged parallel runs */
 static long g_stage_base=0, g_cur_base=0, g_replay=-1; static mc_item_fn g_stage_fn;
 static void stage_wrap(long item,void *ctx){ if(item<g_cur_base) return; g_stage_fn(item-g_cur_base,ctx); }
-/* prereq: later stages need this stage's complete result (BFS levels). Returns items skipped. */
-static long stage_par(long n,mc_item_fn fn,void *ctx,int prereq){
-   long base=g_stage_base,r; g_stage_base+=n; g_cur_base=base; g_stage_fn=fn;
+/* Item numbers are global and fixed per stage, independent of the order in which stages are executed: stages whose size is
+ * known up front reserve their range first (stage_reserve), data-dependent stages (BFS levels, class stage) take ranges after
+ * them.  prereq: later stages need this stage's complete result (BFS levels), so a replay of a later item re-runs it fully;
+ * a replay of an item in a reserved range skips the BFS entirely. Returns items skipped. */
+static long stage_reserve(long n){ long b=g_stage_base; g_stage_base+=n; return b; }
+static long stage_par_at(long base,long n,mc_item_fn fn,void *ctx,int prereq){
+   long r; g_cur_base=base; g_stage_fn=fn;
    if (n<=0) return 0;
    if (g_replay>=0){
-      if (g_replay<base) return 0;                       /* target lies in an earlier stage */
+      if (g_replay<base) return 0;                       /* target lies in a lower-numbered stage */
       if (g_replay>=base+n){ if(!prereq) return 0; MC.only_item=-1; r=mc_par(base+n,stage_wrap,ctx); MC.only_item=g_replay; return r; }
       return mc_par(base+n,stage_wrap,ctx);
    }
    return mc_par(base+n,stage_wrap,ctx);
 }
+static long stage_par(long n,mc_item_fn fn,void *ctx,int prereq){ return stage_par_at(stage_reserve(n),n,fn,ctx,prereq); }
 
 /* ------------------------------------------------------------------ shared (hash -> minimal history) table */
 typedef struct { uint64_t h, v; } hent;
